@@ -4,7 +4,7 @@ PROP = dict(
     id="C26",
     corr=["Model/FsmCorr.vo", "Model/C17Corr.vo", "Model/C26Corr.vo"],
     design_ref="DESIGN.md §6 C26",
-    technique="Coq: induction over the engine model (every step that enters a state whose action tree has AddSuspiciousPeerAction on its spine emits the policy call for the swap's peer; for ANY table), reflective checks on the regenerated tables (ClaimedCsv entered only by the CSV spend; request admission guarded by CheckRequestWrapperAction and followed by the cancel path), symbolic execution of the quarantined admission path, and lemmas over the peer-sync model of C28; correspondence: state-machine scenarios, and an end-to-end family on the real SwapService + real policy file + real peer-sync handler/poller",
+    technique="Coq: induction over the engine model (every step that enters a state whose action tree has AddSuspiciousPeerAction on its spine emits the policy call for the swap's peer; for ANY table), reflective checks on the regenerated tables (ClaimedCsv entered only by the CSV spend; request admission guarded by CheckRequestWrapperAction and followed by the cancel path), symbolic execution of the quarantined admission path, and lemmas over the peer-sync model of C28; correspondence: state-machine scenarios, and an end-to-end family on the real SwapService + real policy file + real peer-sync handler/poller; half of the scenarios add the quarantined peer to the allowlist and remove it again before the later attempts (the quarantine has to survive an unrelated policy edit)",
     level_text="Machine-checked: in both maker tables, for every swap data, entry point and environment, a step that brings the swap into State_ClaimedCsv calls AddToSuspiciousPeerList for the swap's peer, and that state is entered only by the success of the CSV spend; with the policy answering 'suspicious', a swap-in or swap-out request of that peer is cancelled (finished state, removed, cancel message) with no other effect than store writes and the rejected-request log; peer-sync ignores its messages (no store change, no answer) and the poller sends it nothing. Observed end to end on the real code with a real policy file: the line suspicious_peers=<peer> is written, survives a reload, both request kinds are cancelled, SwapOut/SwapIn towards the peer are refused without any message or active swap, peer-sync neither answers nor stores; an innocent peer and a peer of a swap that ended otherwise are served.",
     level_note="Trusted: Coq kernel; hand-written models (actions.go/fsm.go; peersync handler/poller from C28; policy from C25) tied by their correspondence runs. Not modelled: the IsPeerSuspicious guard at the top of SwapService.SwapOut/SwapIn (observed by the end-to-end family only). When the policy file cannot be written the action logs the error and the swap still finishes: the peer is then NOT quarantined (observed, stated; the property presupposes a writable policy file).",
     assumptions=[
